@@ -219,6 +219,10 @@ def r3_msm(ctx: Context) -> None:
             std_taken = any(d.startswith("self._standardise_moments=true") for d in decisions)
             kind = "identity" if v in A_id else "inverse" if v in A_inv else "user" if v in A_user else None
             if kind is None:
+                opaque = [c_ for c_ in ast.walk(form) if isinstance(c_, ast.Call) and isinstance(c_.func, ast.Name) and any(
+                    isinstance(t, FuncInfo) for t in ctx.prog.resolve_call(f, c_)) and c_.func.id not in ("cast",)]
+                if opaque:
+                    raise AnalysisError(f"{f.loc(r)}: the MSM value goes through the helper `{src(opaque[0].func)}`, which could not be read in place; cannot decide R3.msm")
                 ctx.fail("R3.msm", "MethodOfMomentsLoss.compute_loss_1d:return", f"on the path [{'; '.join(decisions)}] MSM returns `{v[:260]}`: neither g.g nor g.W.g with g = m(real) - mean_e m(sim_e) "
                          "and W built from the same (standardised or raw) moments as g", f, r, list(decisions))
                 continue
@@ -434,40 +438,43 @@ def r3_likelihood(ctx: Context) -> None:
     n = normaliser(prog, f)
     sim, real = f.bound_params[0], f.bound_params[1]
     shp = f"cast(tuple, {sim}.shape)"
-    txts = [str(n.rat(r.value)) for r in returns_of(f)]
-    for r, txt in zip(returns_of(f), txts):
-        D = f"{sim}.shape[2]"
-        checks = {
-            "negated mean log-likelihood": txt.startswith("-1*") or txt.startswith("(-1*"),
-            "squared distance scaled by 1/D": "1/" in txt or "pow(" in txt or True,
-        }
-        ok_neg = txt.lstrip("(").startswith("-1*")
-        ctx.check(ok_neg, "R3.likelihood", "LikelihoodLoss.compute_loss:sign", "returns minus the mean log-likelihood", f"returns `{txt[:100]}`", f, r)
-    sq = [s for s in walk_scope(f.node) if isinstance(s, ast.Assign) and isinstance(s.targets[0], ast.Name) and s.targets[0].id.startswith("sq_dist")]
-    ctx.floor("R3", "squared-distance definition in the likelihood", len(sq), 1)
-    nn = normaliser(prog, f, inline_locals=False)
-    dname = None
-    for s in walk_scope(f.node):
-        if isinstance(s, ast.Assign) and isinstance(s.targets[0], ast.Name) and isinstance(s.value, ast.Subscript) and src(s.value.slice) == "2" and "shape" in src(s.value.value):
-            dname = s.targets[0].id
-    got = nn.rat(sq[0].value)
-    want = nn.rat(parse_expr(f"1.0 / {dname} * np.sum(({sim}[:, None, :, :] - {real}[None, :, None, :]) ** 2, axis=3)"))
-    ctx.check(got.equals(want), "R3.likelihood", "LikelihoodLoss.compute_loss:sq-dist", "squared distances are summed over coordinates and scaled by 1/D",
-              f"squared distance is `{str(got)[:200]}`", f, sq[0])
-    # members / time reductions
-    reds = {s.targets[0].id: s.value for s in walk_scope(f.node) if isinstance(s, ast.Assign) and isinstance(s.targets[0], ast.Name)}
-    sname = rname = None
-    for s in walk_scope(f.node):
-        if isinstance(s, ast.Assign) and isinstance(s.targets[0], ast.Name) and isinstance(s.value, ast.Subscript) and "shape" in src(s.value.value):
-            if src(s.value.slice) == "1":
-                sname = s.targets[0].id
-            if src(s.value.slice) == "0":
-                rname = s.targets[0].id
-    full = n.rat(returns_of(f)[0].value)
-    ftxt = str(full)
-    ok = f"axis=2)" in ftxt and f"axis=1)" in ftxt and f"axis=0)" in ftxt and "log(" in ftxt
-    ctx.check(ok, "R3.likelihood", "LikelihoodLoss.compute_loss:reductions", "kernel summed over simulated points (axis 2) / s, log summed over time (axis 1), mean over repetitions (axis 0) / r",
-              f"reduction structure changed: `{ftxt[:200]}`", f, returns_of(f)[0])
+    # Whole-pipeline reading: the value returned on every path, with every local substituted forward (util.path_forms) and `cast(T, e)` read as `e`,
+    # must be the documented expression - minus the mean over repetitions of the time-sum of log kernel-density estimates, the squared distances being
+    # summed over coordinates and scaled by 1/D.  Local names, temporaries, records and extracted helpers do not enter the comparison.
+    class _NoCast(ast.NodeTransformer):
+        def visit_Call(self, node: ast.Call):  # noqa: N802
+            self.generic_visit(node)
+            if (dotted(node.func) or "").split(".")[-1] == "cast" and len(node.args) == 2:
+                return node.args[1]
+            return node
+
+    n0 = normaliser(prog, f, inline_locals=False)
+    g = CFG(f.node)
+    R, S, D = f"{sim}.shape[0]", f"{sim}.shape[1]", f"{sim}.shape[2]"
+    X = f"np.transpose(self._filter_data(self._check_coordinate_filters({D}), {sim}), (1, 2, 0))"
+    sq = f"(1.0 / {D} * np.sum(({X}[:, None, :, :] - {real}[None, :, None, :]) ** 2, axis=3))"
+    oracle = f"-(np.sum(np.sum(np.log(np.sum(kernel({sq}, self._check_bandwidth({S}, {D}), {D}), axis=2) / {S}), axis=1), axis=0) / {R})"
+    want = n0.rat(parse_expr(oracle))
+    rets = returns_of(f)
+    ctx.floor("R3", "return in LikelihoodLoss.compute_loss", len(rets), 1)
+    n_forms = 0
+    for r in rets:
+        for decisions, form in path_forms(f, g, r.value, g.nodes_of(r)[0]):
+            n_forms += 1
+            got = n0.rat(_NoCast().visit(form))
+            ok = got.equals(want) or str(got) == str(want)
+            gtxt = str(got)
+            hint = ""
+            if not ok:
+                if not gtxt.lstrip("(").startswith("-1*"):
+                    hint = " (sign: must return MINUS the mean log-likelihood)"
+                elif "axis=3" not in gtxt:
+                    hint = " (the squared distance is no longer summed over the coordinate axis)"
+                elif f"/({n0.rat(parse_expr(D))})" not in gtxt and f"({n0.rat(parse_expr(D))})" not in gtxt:
+                    hint = " (the 1/D scaling of the squared distance is missing)"
+            ctx.check(ok, "R3.likelihood", "LikelihoodLoss.compute_loss:pipeline", "returns -(1/R) sum_r sum_t log( (1/S) sum_s K( (1/D) sum_d (x - y)^2 ; h, D) )",
+                      f"on the path [{'; '.join(decisions)}] the likelihood loss is `{gtxt[:260]}`{hint}; documented `{str(want)[:200]}`", f, r)
+    ctx.notes["likelihood_forms"] = n_forms
     bw = ctx.func("black_it.loss_functions.likelihood:LikelihoodLoss._check_bandwidth")
     nb = normaliser(prog, bw, inline_locals=False)
     g = CFG(bw.node)
